@@ -346,6 +346,25 @@ def verdict(ctx, facts):
     ctx.ob("VERDICT", "no-arm:changed-before-read", ok, "the verdict is read only after changed() settled" if ok else "the verdict can be read before the batch was validated (stale `false`/`true`)", site_of(b, bo[0][0]))
     sws = _switch_on(b, lambda e: "watch::Receiver::<T>::borrow" in str(e))
     if not sws or sws[0][2] is None:
+        # combinator form: `(*rx.borrow()).then_some(()).ok_or(Error::ParallelDZKPValidationFailed)` as the arm's value
+        for tb, tt in flow.find_calls(b, re.compile(r"<impl bool>::then(_some)?$")):
+            c = flow.strip_casts(flow.expr_of(b, tt["args"][0], max_depth=12))
+            if "watch::Receiver::<T>::borrow" not in str(c):
+                continue
+            plain = "'un'" not in str(c) and "'bin'" not in str(c)        # the verdict itself, not its negation / a comparison
+            al = flow.local_aliases_fwd(b, tt["d"][0]) if tt.get("d") and len(tt["d"]) == 1 else set()
+            oo = [(ob, ot) for ob, ot in flow.find_calls(b, re.compile(r"Option::<T>::ok_or(_else)?$")) if F.op_local(ot["args"][0]) in al]
+            if not oo:
+                continue
+            ob, ot = oo[0]
+            al2 = flow.local_aliases_fwd(b, ot["d"][0]) if ot.get("d") and len(ot["d"]) == 1 else set()
+            returned = ot.get("d") == [0] or any(s_["p"] == [0] and s_["r"]["k"] == "use" and F.op_local(s_["r"]["o"]) in al2 for _, _, s_ in b.iter_assigns())
+            no_other_ok = not any(s_["p"] == [0] and s_["r"]["k"] == "agg" and s_["r"].get("vn") == "Ok" and flow.dominates(dom, tb, x) for x, _, s_ in b.iter_assigns())
+            ok1 = plain and returned and no_other_ok
+            ok2 = plain and returned and "ParallelDZKPValidationFailed" in str(flow.expr_of(b, ot["args"][1], max_depth=8))
+            ctx.ob("VERDICT", "no-arm:ok-only-if-true", ok1, "waiters succeed exactly when the batch check succeeded" if ok1 else "a waiter can return Ok although the batch verdict is false", site_of(b, tb))
+            ctx.ob("VERDICT", "no-arm:err-if-false", ok2, "a failed batch fails every record of the batch" if ok2 else "the false verdict does not map to Err(ParallelDZKPValidationFailed)", site_of(b, ob))
+            return
         return ctx.missing("VERDICT", "branch on *rx.borrow()")
     sw, e3, ed = sws[0]
     oks = [(bb, i) for bb, i, s in b.iter_assigns() if s["p"] == [0] and s["r"]["k"] == "agg" and s["r"].get("vn") == "Ok" and flow.dominates(dom, sw, bb)]
